@@ -73,6 +73,14 @@ def make_cases(tier):
                     lambda ns, piece=piece: "F" + piece * ns[0] + "O", probe="start-group-mass-counted-in-block"))
     out.append(Case("ether-unit", f"OCC{{[<][<]CC(C)O[>][>]}}{dist_text(fam, par)}[Si]", [(fam, par, "OC(C)C")], "prefix",
                     lambda ns: "OCC" + "OC(C)C" * ns[0] + "[Si]", probe="depends-on-atom-order-when-a-token-pattern-is-symmetric"))
+    # locally symmetric substituents (equivalent atoms that carry no descriptor): one generation route, counted once
+    out.append(Case("gem-difluoro-unit", f"OCC{{[<][<]C(F)(F)C[>][>]}}{dist_text('gauss', (150, 40))}[Si]", [("gauss", (150, 40), "CC(F)(F)")], "prefix",
+                    lambda ns: "OCC" + "CC(F)(F)" * ns[0] + "[Si]"))
+    out.append(Case("isopropyl-suffix", f"OCC{{[<]{tok}[>]}}{dist_text(fam, par)}C(C)C", [(fam, par, piece)], "prefix",
+                    lambda ns, piece=piece: "OCC" + piece * ns[0] + "C(C)C"))
+    # a law with noticeable mass below zero: those targets give one-unit chains
+    out.append(Case("wide-gauss", f"OCC{{[<]{tok}[>]}}{dist_text('gauss', (60, 50))}[Si]", [("gauss", (60, 50), piece)], "prefix",
+                    lambda ns, piece=piece: "OCC" + piece * ns[0] + "[Si]"))
     # symmetric repeat unit (atom order of the query)
     out.append(Case("symmetric-unit", f"OCC{{[<][<]CC[>][>]}}{dist_text(fam, par)}[Si]", [(fam, par, "CC")], "prefix",
                     lambda ns: "OCC" + "CC" * ns[0] + "[Si]", probe="depends-on-atom-order-when-a-token-pattern-is-symmetric"))
@@ -85,7 +93,8 @@ def key_of(case, clause):
 
 def block_prob(ref, m, n):
     hi = ref.cdf(math.floor(n * m + 1e-9) if ref.discrete else n * m)
-    lo = ref.cdf(math.floor((n - 1) * m + 1e-9) if ref.discrete else (n - 1) * m) if n > 1 else ref.cdf(0.0)
+    # a target at or below zero also ends the block after its first unit: one-unit chains get the whole lower tail
+    lo = ref.cdf(math.floor((n - 1) * m + 1e-9) if ref.discrete else (n - 1) * m) if n > 1 else 0.0
     return hi - lo, lo, hi
 
 
@@ -152,7 +161,8 @@ def run(tier):
                 total_ref += pref
                 records.append({"kind": "chain", "p": sc(p_impl), "snum": case.startprob[0], "sden": case.startprob[1], "Fa": sc(factors[0][0]), "Fb": sc(factors[0][1]),
                                 "tol": sc(tolfam)})
-                meta.append((case, smi, f"{ns[0]} units: reported {p_impl}, generation {pref}"))
+                meta.append((case, smi, f"{ns[0]} units: reported {p_impl}, generation {pref}",
+                             {"n": ns[0], "below0": refs[0].cdf(0.0) if not refs[0].discrete else 0.0, "p": p_impl, "pref": pref, "sp": case.startprob[0] / case.startprob[1], "tol": tolfam}))
             else:
                 if abs(p_impl - pref) > tolfam + 1e-9:
                     v.violation(key_of(case, "chain-probability-differs"), f"{case.text}: {smi} ({ns} units): reported {p_impl}, product of block probabilities {pref}",
@@ -172,7 +182,7 @@ def run(tier):
                 samples.append({"molecule": case.text, "query": smi, "reported": p_impl, "closed_form": pref})
         if len(case.blocks) == 1 and total_ref > 1 - 1e-6 and not case.probe:
             records.append({"kind": "total", "total": sc(total_impl), "tol": sc(max(1e-6, 20 * tolfam))})
-            meta.append((case, "", f"sum over chain lengths 1..{NMAX}: {total_impl}"))
+            meta.append((case, "", f"sum over chain lengths 1..{NMAX}: {total_impl}", {"total": total_impl, "below0": refs[0].cdf(0.0) if not refs[0].discrete else 0.0}))
         # molecules outside the ensemble
         ns = list(modal)
         inside = case.build(ns)
@@ -187,10 +197,18 @@ def run(tier):
             except Exception as exc:
                 p = 0.0
             records.append({"kind": "zero", "p": sc(p), "tol": sc(1e-12)})
-            meta.append((case, smi, f"outside the ensemble ({why}): reported {p}"))
+            meta.append((case, smi, f"outside the ensemble ({why}): reported {p}", {}))
     failed, states = LC.validate(records, tag="c19")
     for idx, clauses in failed:
-        case, smi, what = meta[idx]
+        case, smi, what, x = meta[idx]
+        # cause: the reported value of a one-unit chain leaves out the law's mass below zero (which generation also turns into one-unit chains)
+        if x.get("n") == 1 and x["below0"] > x["tol"] and abs(x["p"] - x["sp"] * (x["pref"] - x["below0"])) <= x["tol"] + 1e-9:
+            v.violation("C19:mass-below-zero-missing-from-one-unit-chain", f"{case.text}: {smi}: {what}; the difference is the law's mass below zero, {x['below0']}",
+                        {"smiles": smi, "molecule": case.text})
+            continue
+        if "total" in x and x["below0"] > 1e-6 and abs(x["total"] - (1 - x["below0"])) <= 1e-6 + 20 * 3e-3 * 0:
+            v.violation("C19:mass-below-zero-missing-from-one-unit-chain", f"{case.text}: {what} = 1 - (mass below zero {x['below0']})", {"molecule": case.text})
+            continue
         for c in clauses:
             why = what.split("(")[1].split(")")[0] if c == "probability-outside-ensemble-not-zero" else ""
             if why == "truncated":
@@ -201,5 +219,6 @@ def run(tier):
                   "cases": len(make_cases(tier)), "samples": samples}
     v.assumptions = ["closed form: start probability x product over blocks of F(M_n) - F(M_{n-1}) with the reference CDF (harness/refcdf.py) at the cumulative unit masses",
                      "single-block relations are evaluated by TLC (Law.tla, record kind 'chain'); products over several blocks are formed in Python (TLC's integers are 32 bit)",
-                     "tolerance 2e-7 (3e-3 for Schulz-Zimm, which the implementation discretises)", "parameter regions with negligible mass below zero"]
+                     "tolerance 2e-7 (3e-3 for Schulz-Zimm, which the implementation discretises)",
+                     "a target at or below zero ends the block after its first unit (C07), so the generation probability of a one-unit chain is F(M_1), the lower tail included"]
     return v.finish()
